@@ -547,7 +547,10 @@ class CFGrid2DTopology(CFGridTopology):
         ], axis=-1)
 
         # Set nan bounds for all cells that have any `nan` in its bounds.
-        cells_with_nans = numpy.isnan(bounds).any(axis=2)
+        # A cell with any undefined corner has no bounds at all,
+        # nor does a cell whose own coordinate is undefined
+        # even when its corners could be derived from its neighbours.
+        cells_with_nans = numpy.isnan(bounds).any(axis=2) | nan_coordinates
         bounds[cells_with_nans] = numpy.nan
 
         data_array = xarray.DataArray(
